@@ -38,6 +38,9 @@ QUERY_OPS = ['get_all_tokens', 'get_all_tokens_encodings', 'get_unique_tokens', 
              'get_voices', 'get_header_nodes', 'get_spine_ids', 'get_spine_count', 'get_leaves', 'get_header_stage', 'get_first_measure',
              'measures_count', 'iter', 'next', 'spine_types', 'is_monophonic', 'match', 'clone', 'count_nodes_by_stage', 'str_node', 'hash_tokens',
              'category_algebra', 'tokens_to_encodings', 'str_tokens', 'eq_tokens']
+# queries whose result is a container built for the caller (NOT get_leaves/get_header_stage, which hand out the tree's own lists)
+RESULT_CONTAINERS = ('get_all_tokens', 'get_all_tokens_encodings', 'get_unique_tokens', 'get_unique_token_encodings', 'frequencies',
+                     'get_metacomments', 'get_header_nodes', 'get_spine_ids', 'spine_types', 'tokens_to_encodings')
 BACKGROUND_OPS = ['bg_loads', 'bg_loads_damaged', 'bg_concat', 'bg_transpose_pitch', 'bg_agnostic', 'bg_export_options', 'bg_to_transposed', 'bg_importer_history']
 
 
@@ -120,7 +123,7 @@ class C14:
                    'no thread interleavings: kernpy promises no thread safety and C14 does not quantify over schedules']
     PROBES = ['natural_raise', 'raise_mid_export', 'interrupt_delivered', 'memerr_delivered', 'range_inside_split', 'options_object_reused',
               'doc_with_error_tokens', 'io_fault_on_dump', 'compared_with_fresh', 'background_ops', 'graph_compared', 'two_imports_battery',
-              'dump_compared', 'args_checked']
+              'dump_compared', 'args_checked', 'caller_edited_a_result']
 
     # ================================================================ plan
     def gen_plan(self, seed, index, tier):
@@ -165,6 +168,8 @@ class C14:
                     op['core_only'] = rng.random() < 0.5
                 elif q in ('str_node', 'hash_tokens', 'str_tokens', 'eq_tokens'):
                     op['pick'] = rng.randrange(1 << 16)
+                if q in RESULT_CONTAINERS and rng.random() < 0.4:
+                    op['edit_result'] = rng.choice(['clear', 'append', 'reverse'])   # the caller owns what a query returns
             elif kind == 'background':
                 op = {'op': rng.choice(BACKGROUND_OPS), 'which': rng.randrange(2), 'pick': rng.randrange(1 << 16)}
             elif kind == 'export_reused':
@@ -307,6 +312,20 @@ class C14:
                 key = next((kk for kk in b if a.get(kk) != b.get(kk)), '?')
                 add_v('argument-mutated', f'argument-mutated/{opname}/{key}', b.get(key), a.get(key), op=opname)
 
+        def own(raw, op, side, norm=lambda x: x):
+            """The caller owns the container a query returned: normalise a copy for comparison, then (live document only) edit
+            the returned object itself - a later call must not be affected."""
+            res = norm(raw)
+            if side == 'L' and op.get('edit_result') and isinstance(raw, (list, dict)):
+                bump(probes, 'caller_edited_a_result')
+                if op['edit_result'] == 'clear':
+                    raw.clear()
+                elif isinstance(raw, list):
+                    raw.reverse() if op['edit_result'] == 'reverse' else raw.append(None)
+                else:
+                    raw['<caller>'] = {'occurrences': 0, 'category': 'X'}
+            return res
+
         def run_op(d, op, side):
             """Execute one read-only operation on document d. Returns a normalised, comparable result."""
             k = op['op']
@@ -357,21 +376,21 @@ class C14:
                 arg = cat_arg(op.get('cats'))
                 try:
                     if k in ('get_all_tokens', 'get_unique_tokens'):
-                        return norm_tokens(getattr(d, k)(filter_by_categories=arg))
+                        return own(getattr(d, k)(filter_by_categories=arg), op, side, norm_tokens)
                     if k == 'frequencies':
-                        return d.frequencies(token_categories=arg)
-                    return getattr(d, k)(filter_by_categories=arg)
+                        return own(d.frequencies(token_categories=arg), op, side, lambda x: canon(x))
+                    return own(getattr(d, k)(filter_by_categories=arg), op, side, list)
                 finally:
                     check_args({'categories': arg}, {'categories': cat_arg(op.get('cats'))}, k, side)
             if k == 'get_metacomments':
-                return d.get_metacomments(KeyComment=op['key'], clear=op['clear'])
+                return own(d.get_metacomments(KeyComment=op['key'], clear=op['clear']), op, side, list)
             if k == 'get_voices':
                 r = d.get_voices(clean=op['clean'])
                 return [token_core(t) if hasattr(t, 'encoding') else t for t in r]
             if k == 'get_header_nodes':
-                return norm_tokens(d.get_header_nodes())
+                return own(d.get_header_nodes(), op, side, norm_tokens)
             if k == 'get_spine_ids':
-                return d.get_spine_ids()
+                return own(d.get_spine_ids(), op, side, list)
             if k == 'get_spine_count':
                 return d.get_spine_count()
             if k == 'get_leaves':
@@ -390,7 +409,7 @@ class C14:
                 h = op.get('headers')
                 arg = list(h) if h is not None else None
                 try:
-                    return kp.spine_types(d, headers=arg)
+                    return own(kp.spine_types(d, headers=arg), op, side, list)
                 finally:
                     check_args({'headers': arg}, {'headers': list(h) if h is not None else None}, k, side)
             if k == 'is_monophonic':
@@ -421,7 +440,7 @@ class C14:
                 a, b = toks[op['pick'] % len(toks)], toks[(op['pick'] // 7) % len(toks)]
                 return [a == b, a != b, a == a]
             if k == 'tokens_to_encodings':
-                return kp.Document.tokens_to_encodings(d.get_all_tokens())
+                return own(kp.Document.tokens_to_encodings(d.get_all_tokens()), op, side, list)
             if k == 'category_algebra':
                 c = CAT[CATS[op.get('pick', 3) % len(CATS)]] if 'pick' in op else CAT.CORE
                 return [sorted(x.name for x in CAT.valid(include={CAT.CORE}, exclude={CAT.DURATION})), sorted(x.name for x in CAT.nodes(c)),
